@@ -48,7 +48,9 @@ func paPtr(i int) string {
 }
 
 // elements are objects (what arrays of a DID document usually hold), recognisable by their value
-func paElem(v int) interface{} { return map[string]interface{}{"v": float64(v), "tag": fmt.Sprintf("e%d", v)} }
+func paElem(v int) interface{} {
+	return map[string]interface{}{"v": float64(v), "tag": fmt.Sprintf("e%d", v)}
+}
 
 func paValue(v interface{}) int {
 	m, ok := v.(map[string]interface{})
